@@ -76,6 +76,27 @@ impl FakeNode {
         g.pending.remove(pos)
     }
 
+    /// Oldest pending call of `method` whose params contain every key/value of `want` (strings compared case-insensitively).
+    pub fn take_where(&self, method: &str, want: &Value) -> Option<PendingCall> {
+        let mut g = self.state.lock().unwrap();
+        let pos = g.pending.iter().position(|c| {
+            if c.method != method {
+                return false;
+            }
+            match want.as_object() {
+                None => true,
+                Some(o) => o.iter().all(|(k, v)| {
+                    let have = &c.params[k];
+                    match (have.as_str(), v.as_str()) {
+                        (Some(a), Some(b)) => a.eq_ignore_ascii_case(b),
+                        _ => have == v,
+                    }
+                }),
+            }
+        })?;
+        g.pending.remove(pos)
+    }
+
     pub fn pending_methods(&self) -> Vec<String> {
         self.state.lock().unwrap().pending.iter().map(|c| c.method.clone()).collect()
     }
@@ -126,8 +147,12 @@ pub async fn settle() {
 /// Wait (yielding; real I/O on the unix socket needs a few reactor turns) until a call of
 /// `method` is pending or `tries` are exhausted.
 pub async fn wait_for_call(node: &FakeNode, method: &str, tries: usize) -> Option<PendingCall> {
+    wait_for_call_where(node, method, &Value::Null, tries).await
+}
+
+pub async fn wait_for_call_where(node: &FakeNode, method: &str, want: &Value, tries: usize) -> Option<PendingCall> {
     for _ in 0..tries {
-        if let Some(c) = node.take(method) {
+        if let Some(c) = node.take_where(method, want) {
             return Some(c);
         }
         settle().await;
